@@ -133,3 +133,37 @@ def linked_partial_only(spec, assigns) -> bool:
         if not any(0 < sum(1 for x in ch if x in a) < len(ch) for ch in linked):
             return False
     return True
+
+
+class only_encoder:
+    """context: the selector's candidate lists reduced to ONE registered non-pattern encoder factory (index k over
+    EAGER_ENCODERS + LAZY_ENCODERS + EAGER_ENUM_ENCODERS), on a scratch cache directory so that the forced selection
+    does not leak into later cases through the selection cache.  The real selection code still runs; if the single
+    candidate cannot encode the settings, selection fails and the caller falls back to the normal run."""
+
+    def __init__(self, k):
+        self.k = k
+
+    def __enter__(self):
+        import os
+        import adsg_core.optimization.assign_enc.selector as sm
+        self.sm = sm
+        self.saved = {n: list(getattr(sm, n)) for n in ('PATTERN_ENCODERS', 'EAGER_ENCODERS', 'LAZY_ENCODERS',
+                                                        'EAGER_ENUM_ENCODERS')}
+        flat = [(n, f) for n in ('EAGER_ENCODERS', 'LAZY_ENCODERS', 'EAGER_ENUM_ENCODERS') for f in self.saved[n]]
+        name, fac = flat[self.k % len(flat)]
+        for n in self.saved:
+            getattr(sm, n)[:] = [fac] if n == name else []
+        self.family = name
+        self.xdg = os.environ.get('XDG_CACHE_HOME')
+        if self.xdg:
+            os.environ['XDG_CACHE_HOME'] = os.path.join(self.xdg, 'forced_%d' % (self.k % len(flat)))
+        return self
+
+    def __exit__(self, *exc):
+        import os
+        for n, lst in self.saved.items():
+            getattr(self.sm, n)[:] = lst
+        if self.xdg:
+            os.environ['XDG_CACHE_HOME'] = self.xdg
+        return False
